@@ -177,6 +177,8 @@ def gen_c15_spec(rng: random.Random, minutes_max: int) -> Dict[str, Any]:
             spec["kick_lat"][str(k)] = rng.choice([0.001, 0.3, 0.9, 5.0, 50.0, 70.0])
     if rng.random() < 0.3:
         spec["kick_fail"] = sorted(rng.sample(range(nk), rng.randint(1, 4)))
+    if rng.random() < 0.25:
+        spec["host_tz"] = rng.choice(S.HOST_ZONES + ["Asia/Kathmandu", "Australia/Lord_Howe"])
     return spec
 
 
@@ -250,12 +252,14 @@ def run_c15(spec: Dict[str, Any]) -> "tuple[Rec, Dict[str, Any]]":
         else:
             t.cancel()
 
+    S.set_host_tz(spec.get("host_tz"))  # the machine's local zone: the loop reads the naive local clock
     try:
         run_virtual(main, step_budget=3_000_000)
     except VirtualDeadlock as exc:
         info["loop_exc"] = f"deadlock {exc}"
     finally:
         S.Clock.source = None
+        S.set_host_tz(None)
     return rec, info
 
 
@@ -469,7 +473,7 @@ class C15(Check):
     quick_cases = 1280
     thorough_cases = 12000
     thorough_time = 420.0
-    assumptions = ["process time zone is UTC (the loop uses naive datetime.now())",
+    assumptions = ["process time zone is UTC, except in the quarter of the runs that sets TZ to another zone (the loop uses naive datetime.now())",
                    "one-shots whose own send was made to fail are not judged (only that others are unaffected)"]
 
     def cases(self, rng: random.Random, tier: str, shard: int, nshards: int) -> Iterator[Any]:
@@ -489,6 +493,8 @@ class C15(Check):
         cr.counters.update(cnt)
         if spec.get("long"):
             cr.counters["runs_longer_than_a_day"] += 1
+        if spec.get("host_tz"):
+            cr.counters["runs_on_non_utc_host"] += 1
         for e in rec.ev:
             cr.events[e["k"]] += 1
         cr.nontrivial = cnt["cron_due_minutes"] + cnt["oneshots_checked"] > 0
